@@ -1,13 +1,15 @@
 package drive
 
 import (
-	relayertypes "github.com/goatnetwork/goat/x/relayer/types"
 	"bytes"
 	"crypto/sha256"
 	"encoding/hex"
 	"fmt"
+	bitcointypes "github.com/goatnetwork/goat/x/bitcoin/types"
+	relayertypes "github.com/goatnetwork/goat/x/relayer/types"
 	"math/rand"
 	"sort"
+	"strings"
 	"time"
 
 	abci "github.com/cometbft/cometbft/abci/types"
@@ -36,8 +38,8 @@ type hoDriver struct {
 	opts HandoverOpts
 	fill int // relayer transactions still waiting in the mempool from a flood (more than one block can carry)
 
-	lastBlock bool // the history's final block (determinism mode: the whole validator set may leave in it)
-	left      int  // blocks left after this one
+	lastBlock bool   // the history's final block (determinism mode: the whole validator set may leave in it)
+	left      int    // blocks left after this one
 	forceMut  string // the next mutated proposal is of this kind (consumed)
 }
 
@@ -105,6 +107,7 @@ func handoverHistory(w *tracew.Writer, seed int64, run, depth int, o HandoverOpt
 	if o.Mode == "determinism" {
 		d.lg.clean = false
 		d.lg.mode = "multifail"
+		a.OddBitmaps = true
 	}
 	d.bg = &bridgeGen{s: a, r: r, net: netByName["regtest"], netName: "regtest", chain: map[uint64]*btcBlock{}, keys: []*sim.BtcKey{btcKey},
 		addrIDs: map[string]string{}, wdNext: 1, clean: true}
@@ -503,6 +506,7 @@ func (d *hoDriver) height() error {
 			// under a newPayload fault the node itself would not accept; finalise anyway (the block was decided by others)
 			_ = pr
 		}
+		d.noise(a, 0)
 		a.C.Eng.TakeLog()
 		a.C.Eng.ResetCounters()
 		res, ferr := a.C.Finalize(blkA)
@@ -575,6 +579,7 @@ func (d *hoDriver) height() error {
 		}
 		// the replica executes the same block fault-free
 		blkB := mkBlock(b.C, proposal, round)
+		d.noise(b, 1)
 		b.C.Eng.TakeLog()
 		resB, err := b.C.Finalize(blkB)
 		if err != nil {
@@ -615,6 +620,55 @@ func (d *hoDriver) height() error {
 			project.QueryAnswers(a.C, []uint64{1, 2, 3}, nil)
 		}
 		return d.committed("commit", a.C)
+	}
+}
+
+// noise: a node also serves transaction simulations (the gRPC Simulate service) between the consensus calls, and what it is
+// asked to simulate differs from node to node. Replica A simulates a voted message whose bitmap marks positions far beyond
+// the group, replica B a genuine one, each right before it executes the block. A simulation is discarded: nothing of it -
+// in the store or anywhere else in the process - may influence what the block computes (C07).
+func (d *hoDriver) noise(s *Session, flavour int) {
+	if d.opts.Mode != "determinism" || s.C.Height < s.C.InitialHeight || d.r.Intn(2) == 0 {
+		return
+	}
+	vc, err := s.voteCtx()
+	if err != nil {
+		return
+	}
+	hash := make([]byte, 32)
+	d.r.Read(hash)
+	m := &bitcointypes.MsgNewBlockHashes{Proposer: s.member(vc.Proposer).Bech, StartBlockNumber: vc.Tip + 1, BlockHash: [][]byte{hash}}
+	odd := s.OddBitmaps
+	s.OddBitmaps = false
+	m.Vote, _ = s.fullVote(vc, "NewBlockHashes", m.VoteSigDoc(), false)
+	s.OddBitmaps = odd
+	if flavour == 0 && len(m.Vote.Voters) >= 8 {
+		for i := 1; i < len(m.Vote.Voters); i++ {
+			m.Vote.Voters[i] = 0xff
+		}
+	}
+	// the simulation runs on the mempool's view of the state, where the proposer's account sequence is ahead of the committed
+	// one by the transactions waiting there: the first answer tells which sequence is expected
+	prop := s.member(vc.Proposer)
+	_, sq, _ := s.C.Account(prop.Addr)
+	for try := 0; try < 2; try++ {
+		tx, err := s.C.SignTx(prop.Priv, []sdk.Msg{m}, sim.SignOpts{Seq: &sq})
+		if err != nil {
+			return
+		}
+		_, _, serr := s.C.App.Simulate(tx)
+		if serr == nil {
+			return
+		}
+		i := strings.Index(serr.Error(), "account sequence mismatch, expected ")
+		if i < 0 {
+			return
+		}
+		var want uint64
+		if _, err := fmt.Sscanf(serr.Error()[i:], "account sequence mismatch, expected %d", &want); err != nil {
+			return
+		}
+		sq = want
 	}
 }
 
